@@ -18,7 +18,7 @@ import random
 from collections import Counter
 from pathlib import Path
 
-from . import common, c01_corpus, c01_driver, c01_findings, c01_hunt, c01_sweep
+from . import common, c01_corpus, c01_driver, c01_findings, c01_hunt, c01_kinds, c01_sweep
 
 PID = "C01"
 WITNESS_FILE = common.VERIF / "corpus" / "c01" / "witnesses.json"
@@ -86,6 +86,20 @@ def build_corpus(tier: str, seed: int = 0, extra_seed=None):
     for k, (name, src) in enumerate(c01_hunt.all_programs()):
         both = [D, dict(D, safe=True)]
         add(f"hunt:{name}", "hunt", src, (both if name.startswith(("imports/", "star/")) or k % 4 == seed % 4 else [D]) if quick else both + pick_combos(k, 2))
+    # round 5: statement-kind coverage (harness/c01_kinds.py).  Quick: of the carrier family the slice in which the loop
+    # CAN be judged impossible to get past (constant-true while that falls through, non-empty literal for whose body ends
+    # in return) with one of the two guard forms, plus shard (seed mod 16) of the rest; everything in the thorough tier (carrier x1, placement x2)
+    for k, (name, src) in enumerate(c01_kinds.carrier_family()):
+        capable = ":while_true:none:" in name or ":for_literal:return:" in name
+        if not quick or (capable and k % 2 == seed % 2) or k % 16 == seed % 16:
+            add(f"kinds:carrier:{name}", "kinds", src, pick_combos(k + seed, 1))       # 16 combinations rotate over the programs
+    for k, (name, src) in enumerate(c01_kinds.placement_family()):
+        if not quick or (":while_true:" in name and k % 2 == seed % 2) or k % 8 == seed % 8:
+            add(f"kinds:placement:{name}", "kinds", src, pick_combos(k + seed + 1, 1 if quick else 2))
+    for k, (name, src) in enumerate(c01_kinds.node_family()):
+        add(f"kinds:node:{name}", "kinds", src, pick_combos(k + seed, 2 if quick else 16))
+    for k, (name, src) in enumerate(c01_kinds.implicit_use_family()):
+        add(f"kinds:implicit:{name}", "kinds", src, [D, dict(D, safe=True)] if quick else [D, dict(D, safe=True)] + pick_combos(k, 2))
     nflow, ndata = (240, 240) if quick else (600, 600)
     shard = (lambda i: i % 6 == seed % 6) if quick else (lambda i: True)
     for i in range(nflow):
@@ -298,6 +312,16 @@ def check(run: common.Run):
             run.violation({"kind": "proof", "file": pr["file"], "broken": pr.get("broken"), "log": pr["log"],
                            "explanation": "a property theorem no longer checks"}, False)
 
+    # coverage meter: which ast node classes occur in the whole (thorough, seed-independent) sweep corpus
+    meter = c01_kinds.coverage_meter([c[2] for c in (corpus if run.tier != "quick" else build_corpus("thorough", 0))])
+    meter["this_run_histogram"] = dict(c01_kinds.node_histogram([c[2] for c in corpus])[0]) if run.tier == "quick" else "same corpus"
+    for name in meter["unlisted_uncovered"]:
+        common.log(f"[c01] coverage: ast.{name} occurs in no sweep program and is not listed in corpus/c01/uncovered_nodes.json")
+    for name in meter["stale_listed"]:
+        common.log(f"[c01] coverage: ast.{name} is listed in corpus/c01/uncovered_nodes.json but occurs in the corpus (or is no node class)")
+    for name in meter["blocks_without_carrier_template"]:
+        common.log(f"[c01] coverage: statement block {name} of this interpreter's grammar has no carrier template (harness/c01_kinds.py)")
+
     stage_names = sorted(set(names) | set(c01_driver.TOP_STAGES) | {k for k in c01_driver.FIXED_KINDS if k.startswith("processing.chain")})
     sample_prog = next((c for c in corpus if c[1] == "data"), corpus[0])
     run.coverage.update(
@@ -315,6 +339,7 @@ def check(run: common.Run):
                    unmatched_failures=len(unmatched), matched_findings={k: len(v) for k, v in sorted(matched.items())},
                    failing_input_search=search_stats),
         histogram=dict(hist),
+        node_coverage=meter,
         stage_hypotheses=stage_names,
         stage_hypotheses_discharged_here=[],
         trusted_base=common.TRUSTED_BASE_COMMON + [
